@@ -9,7 +9,7 @@
 Require Import Arith Lia List Bool ZArith QArith Qcanon.
 From TK Require Import Mat_Sums Mat_Core Mat_Qc Mat_EigSelect EigSelect Mat_EigSelect_Tie
                        Lap_Model Lap_Spec Lap_Exec Lap_Proof_Lap Lap_Proof_Embed Lap_Proof_Dm
-                       Lap_Proof_Total Lap_Proof_Complete Lap_Proof_Order.
+                       Lap_Proof_Total Lap_Proof_Complete Lap_Proof_Order Lap_Proof_DmOrder.
 Import ListNotations.
 Local Open Scope list_scope.
 Local Open Scope nat_scope.
@@ -432,7 +432,117 @@ Proof.
   apply read_msym_by_compute. vm_compute. reflexivity.
 Qed.
 
-(* 18. the eigenvalue slice of the smallest-eigenvalue site (defect F7, known finding): for whichever form the
+(* 19. Diffusion Map, the ORDER part at Qc.  For a positive symmetric kernel the diffusion operator T is a positive
+       Markov matrix; every eigenvalue of a positive Markov matrix lies in [-1, 1] and T phi = phi forces phi to be
+       constant (maximum principle).  Hence for ANY answer (V, lam) of the self-adjoint solver for
+       M = S^-1 K1 S^-1 that meets its contract (M V = V Lambda, V^T V = I, V V^T = I) in ascending order:
+       lam_(n-1) = 1, the last column is alpha * s with alpha <> 0 (the TRIVIAL pair: psi_0 = sqrt q normalised),
+       every other eigenvalue is < 1 (the eigenvalue 1 is simple) and >= -1. *)
+Theorem Dm_markov_spectrum_Qc :
+  forall (T : mat Qc) (n : nat),
+    (forall i j, i < n -> j < n -> (0 < T i j)%Qc) ->
+    (forall i, i < n -> sumn n (fun j => T i j) = 1%Qc) ->
+    (forall phi : vec Qc, 0 < n -> eigvec n T 1%Qc phi -> forall i, i < n -> phi i = phi 0) /\
+    (forall (l : Qc) (phi : vec Qc), eigvec n T l phi -> (exists i, i < n /\ phi i <> 0%Qc) ->
+       (- (1) <= l)%Qc /\ (l <= 1)%Qc).
+Proof.
+  intros T n Tpos Trow. split.
+  - intros phi. apply markov_eig1_const; assumption.
+  - intros l phi. apply markov_eig_bound; assumption.
+Qed.
+Print Assumptions Dm_markov_spectrum_Qc.
+
+Theorem Dm_top_is_trivial_Qc_partial :
+  forall (K : mat Qc) (n : nat) (s : vec Qc) (V : mat Qc) (lam : vec Qc),
+    0 < n ->
+    (forall i j, i < n -> j < n -> (0 < K i j)%Qc) ->
+    (forall i j, i < n -> j < n -> K i j = K j i) ->
+    (forall i, i < n -> (s i * s i)%F = dm_Q K n i) ->
+    (forall i, i < n -> s i <> 0%Qc) ->
+    sym_contract n (dm_sym K n s) V lam ->
+    meq n n (mmul n V (mtrans V)) mI ->
+    (forall a b, a <= b -> b < n -> (lam a <= lam b)%Qc) ->
+    lam (n - 1) = 1%Qc /\
+    (exists al, al <> 0%Qc /\ forall i, i < n -> V i (n - 1) = (al * s i)%Qc) /\
+    (forall c, c < n - 1 -> (lam c < 1)%Qc) /\
+    (forall c, c < n -> (- (1) <= lam c)%Qc).
+Proof. exact dm_top_is_trivial. Qed.
+Print Assumptions Dm_top_is_trivial_Qc_partial.
+
+(* 20. Diffusion Map, full statement at Qc: the pair dropped by embed() is the trivial one, the d kept pairs are the
+       leading non-trivial ones (each below 1, each at least as large as every pair that is not kept), and the output
+       is lambda_c^t psi_c / psi_0, column by column a right eigenvector of the diffusion operator.
+       _partial only in that the solver's contract (incl. completeness V V^T = I and ascending order) and
+       pow(x, t) = x^t are oracle hypotheses (measured on every run), and exp, sqrt are uninterpreted values. *)
+Theorem Dm_map_Qc_partial :
+  forall (K : mat Qc) (n d t : nat) (s : vec Qc) (V : mat Qc) (lam : vec Qc) (powo : Qc -> nat -> Qc),
+    d + 1 <= n ->
+    (forall i j, i < n -> j < n -> (0 < K i j)%Qc) ->
+    (forall i j, i < n -> j < n -> K i j = K j i) ->
+    (forall i, i < n -> (s i * s i)%F = dm_Q K n i) ->
+    (forall i, i < n -> s i <> 0%Qc) ->
+    sym_contract n (dm_sym K n s) V lam ->
+    meq n n (mmul n V (mtrans V)) mI ->
+    (forall a b, a <= b -> b < n -> (lam a <= lam b)%Qc) ->
+    (forall x, powo x t = fpow x t) ->
+    lam (n - 1) = 1%Qc /\
+    (forall c, c < d -> (lam (n - (d + 1) + c)%nat < 1)%Qc) /\
+    (forall c c', c < d -> c' < n - (d + 1) -> (lam c' <= lam (n - (d + 1) + c)%nat)%Qc) /\
+    exists Y, dm_embedding n d t V lam powo = Some Y /\
+      (forall r c, r < n -> c < d ->
+         Y r c = dm_spec d t (fun x c0 => V x (n - (d + 1) + c0))
+                         (fun c0 => lam (n - (d + 1) + c0))
+                         (fun x => V x (n - 1)) r c) /\
+      (forall c, c < d ->
+         exists Y', veq n (mcol Y c) Y' /\
+                    eigvec n (dm_markov K n) (lam (n - (d + 1) + c)) Y').
+Proof. exact dm_map_full. Qed.
+Print Assumptions Dm_map_Qc_partial.
+
+(* complete rational instance: K i j = f(i xor j) on 4 points with f = (1, 3/2, 1, 1/2): positive, symmetric,
+   p = 4, q = 1/4, s = 1/2, M = K/4 with the Walsh-Hadamard vectors / 2 as orthonormal eigenbasis and
+   eigenvalues -1/4, 0, 1/4, 1 *)
+Definition exm_K : mat Qc :=
+  mof [[qz 1; qfrac 3 2; qz 1; qfrac 1 2]; [qfrac 3 2; qz 1; qfrac 1 2; qz 1];
+       [qz 1; qfrac 1 2; qz 1; qfrac 3 2]; [qfrac 1 2; qz 1; qfrac 3 2; qz 1]].
+Definition hq : Qc := qfrac 1 2.
+Definition exm_s : vec Qc := fun _ => hq.
+Definition exm_V : mat Qc :=
+  mof [[hq; hq; hq; hq]; [(-hq)%Qc; (-hq)%Qc; hq; hq]; [(-hq)%Qc; hq; (-hq)%Qc; hq]; [hq; (-hq)%Qc; (-hq)%Qc; hq]].
+Definition exm_lam : vec Qc := vof [qfrac (-1) 4; qz 0; qfrac 1 4; qz 1].
+
+Example Dm_map_nonvacuous :
+  (forall i j, i < 4 -> j < 4 -> (0 < exm_K i j)%Qc) /\
+  (forall i j, i < 4 -> j < 4 -> exm_K i j = exm_K j i) /\
+  (forall i, i < 4 -> (exm_s i * exm_s i)%F = dm_Q exm_K 4 i) /\
+  (forall i, i < 4 -> exm_s i <> 0%Qc) /\
+  sym_contract 4 (dm_sym exm_K 4 exm_s) exm_V exm_lam /\
+  meq 4 4 (mmul 4 exm_V (mtrans exm_V)) mI /\
+  (forall a b, a <= b -> b < 4 -> (exm_lam a <= exm_lam b)%Qc) /\
+  (* and the conclusion, computed for d = 2, t = 2: columns lambda^2 psi / psi_top for lambda = 0 and 1/4 *)
+  (match dm_embedding 4 2 2 exm_V exm_lam (@fpow Qc _) with
+   | Some Y => mlist_eqb (mtab 4 2 Y)
+                 [[qz 0; qfrac 1 16]; [qz 0; qfrac 1 16]; [qz 0; qfrac (-1) 16]; [qz 0; qfrac (-1) 16]]
+   | None => false end) = true.
+Proof.
+  split.
+  { intros i j Hi Hj. destruct i as [|[|[|[|i]]]]; destruct j as [|[|[|[|j]]]]; try lia; reflexivity. }
+  split.
+  { intros i j Hi Hj. destruct i as [|[|[|[|i]]]]; destruct j as [|[|[|[|j]]]]; try lia; reflexivity. }
+  split.
+  { intros i Hi. destruct i as [|[|[|[|i]]]]; try lia; apply Qc_is_canon; vm_compute; reflexivity. }
+  split.
+  { intros i Hi H. vm_compute in H. discriminate. }
+  split.
+  { split; apply meq_by_compute; vm_compute; reflexivity. }
+  split; [apply meq_by_compute; vm_compute; reflexivity|].
+  split.
+  { intros a b Hab Hb.
+    destruct a as [|[|[|[|a]]]]; destruct b as [|[|[|[|b]]]]; try lia; vm_compute; discriminate. }
+  vm_compute. reflexivity.
+Qed.
+
+(* 21. the eigenvalue slice of the smallest-eigenvalue site (defect F7, known finding): for whichever form the
        generated table of the tree has, either the refutation with witness or the in-range theorem *)
 Theorem Lap_eig_segment_table :
   (f7_present = true /\
